@@ -3,9 +3,35 @@
 Records the outcome in seeded/<id>/meta.json under "checks". Usage: seed_run.py [dir ...]"""
 import glob, json, os, re, subprocess, sys, time
 VERIF = os.path.dirname(os.path.dirname(os.path.abspath(__file__)))
+SCRATCH = None
+if '--scratch' in sys.argv:
+    # run against a scratch copy of /repo (VERIF_REPO) instead of patching /repo itself: lets other work go on in /repo meanwhile
+    sys.argv.remove('--scratch')
+    SCRATCH = '/tmp/seedrun-repo'
 dirs = [os.path.abspath(x) for x in sys.argv[1:]] or sorted(glob.glob(os.path.join(VERIF, 'seeded', '*')))
 assert subprocess.run(['git', '-C', '/repo', 'status', '--porcelain'], capture_output=True, text=True).stdout.strip() == '', '/repo not clean'
 for d in dirs:
+    if SCRATCH:
+        d = d.rstrip('/')
+        meta_p = os.path.join(d, 'meta.json')
+        meta = json.load(open(meta_p))
+        prop = meta['property']
+        subprocess.run(['rsync', '-a', '--delete', '--exclude', 'target', '--exclude', '.git', '/repo/', SCRATCH + '/'], check=True)
+        ap = subprocess.run(['patch', '-p1', '-s', '-d', SCRATCH, '-i', os.path.join(d, 'patch.diff')], capture_output=True, text=True)
+        if ap.returncode != 0:
+            print(os.path.basename(d), 'PATCH DOES NOT APPLY', (ap.stdout + ap.stderr)[:200]); continue
+        env = dict(os.environ); env['VERIF_REPO'] = SCRATCH; env['VERIF_WORK_SUFFIX'] = '-seedrun'
+        t0 = time.time()
+        p = subprocess.run([os.path.join(VERIF, 'check'), prop, '--tier', 'quick', '--no-evidence'], capture_output=True, text=True, cwd=VERIF, env=env)
+        viol = [l for l in p.stdout.split('\n') if l.startswith('VIOLATION')]
+        und = [l for l in p.stdout.split('\n') if l.startswith('UNDECIDED')]
+        obs = sorted(set(re.findall(r'obligation=(\S+)', '\n'.join(viol))))
+        meta['checks'] = {'cmd': './check %s --tier quick (VERIF_REPO = scratch copy of /repo with the patch applied)' % prop, 'exit': p.returncode, 'detected': p.returncode == 1,
+                          'failed_obligations': obs, 'witness_found': [not l.endswith('no-failing-input-found') for l in viol],
+                          'undecided': [u[:200] for u in und], 'wall_s': round(time.time() - t0, 1)}
+        json.dump(meta, open(meta_p, 'w'), indent=1)
+        print(os.path.basename(d), 'exit', p.returncode, obs[:4], ('UNDECIDED: ' + und[0][:120]) if und else '', flush=True)
+        continue
     d = d.rstrip('/')
     meta_p = os.path.join(d, 'meta.json')
     meta = json.load(open(meta_p))
